@@ -20,8 +20,8 @@ TRACE_CFG = "HttpFramingTrace.cfg"
 
 # named known deviations the trace spec can emit (clause names; see HttpFraming.tla / HttpFramingTrace.tla)
 DEV_CLAUSES = {
-    "TargetCTLAccepted", "MethodCaseFolded", "ConnectTargetAccepted", "AbsTargetAuthorityAccepted",
-    "TEonHTTP10Accepted", "TEUnknownCodingAccepted", "HeadRequestBodySkipped", "ChunkExtCTLAccepted",
+    "TargetCTLAccepted", "AbsTargetAuthorityAccepted",
+    "TEonHTTP10Accepted", "HeadRequestBodySkipped", "ChunkExtCTLAccepted",
     "UrlValueErrorEscapes", "LimitByCallPosition", "LimitCutBeforeLF", "DataAfterCloseSegDependent",
     "BodyError5xx", "BadAuthorityKillsHandler", "StalePauseStall", "LaxChunkCRSegDependent",
 }
@@ -356,6 +356,119 @@ def run_parser(mode: str, data: bytes, cuts: Sequence[int], lim: Limits, *, unti
     return r
 
 
+# ---------------------------------------------------------------- client connection level
+class ClientRun:
+    """One response stream fed to a real aiohttp.client_proto.ResponseHandler on a MemTransport:
+    observes how parser errors are mapped (client error + closed transport)."""
+
+    def __init__(self, lim: Limits, *, until_eof: bool = False, with_body: bool = True) -> None:
+        from aiohttp.client_proto import ResponseHandler
+
+        self.loop = get_loop()
+        self.proto = ResponseHandler(self.loop)
+        self.tr = attach(self.loop, self.proto)
+        self.proto.set_response_params(read_until_eof=until_eof, skip_payload=not with_body,
+                                       read_bufsize=lim.limit, max_line_size=lim.max_line,
+                                       max_field_size=lim.max_field, max_headers=lim.max_headers,
+                                       auto_decompress=False)
+        self.msgs: List[list] = []
+        self.loop_exc: List[str] = []
+
+    def _pull(self) -> None:
+        for _ in range(10000):
+            n = len(self.proto)
+            if n == 0:
+                break
+            try:
+                m, p = self.loop.run_coro(self.proto.read())
+            except BaseException as e:  # noqa: BLE001
+                if isinstance(e, (KeyboardInterrupt, SystemExit, MemoryError)):
+                    raise
+                break
+            self.msgs.append([m, p, bytearray(), set()])
+        for rec in self.msgs:
+            p = rec[1]
+            if not hasattr(p, "_buffer") or p.exception() is not None:
+                continue
+            sp = getattr(p, "_http_chunk_splits", None)
+            if sp:
+                rec[3].update(sp)
+            try:
+                d = p.read_nowait(-1)
+            except BaseException as e:  # noqa: BLE001
+                if isinstance(e, (KeyboardInterrupt, SystemExit, MemoryError)):
+                    raise
+                d = b""
+            if d:
+                rec[2] += d
+
+    def run(self, data: bytes, cuts: Sequence[int]) -> dict:
+        from aiohttp.client_exceptions import ClientError
+        from aiohttp.http_exceptions import HttpProcessingError
+
+        loop = self.loop
+        loop.exc_contexts.clear()
+        for seg in segments(data, cuts):
+            if self.tr.closing:
+                break
+            try:
+                self.tr.feed(seg)
+            except BaseException as e:  # noqa: BLE001
+                if isinstance(e, (KeyboardInterrupt, SystemExit, MemoryError)):
+                    raise
+                self.loop_exc.append(type(e).__name__)
+                break
+            loop.run_until_idle()
+            for _ in range(50):
+                before = sum(len(r[2]) for r in self.msgs) + len(self.msgs)
+                self._pull()
+                loop.run_until_idle()
+                if sum(len(r[2]) for r in self.msgs) + len(self.msgs) == before:
+                    break
+        for c in loop.exc_contexts:
+            ex = c.get("exception")
+            if ex is not None:
+                self.loop_exc.append(type(ex).__name__)
+        loop.exc_contexts.clear()
+        pe = self.proto.exception()
+        cause = getattr(pe, "__cause__", None) if pe is not None else None
+        under = cause if cause is not None else pe
+        ev = blank_event()
+        ms = []
+        limitish = under is not None and _is_limit_exc(under)
+        for m, p, body, ends in self.msgs:
+            x = p.exception()
+            xc = getattr(x, "__cause__", None) if x is not None else None
+            if xc is not None and _is_limit_exc(xc):
+                limitish = True
+            ms.append({"method": [], "target": [], "vmaj": int(m.version[0]), "vmin": int(m.version[1]),
+                       "code": int(m.code), "reason": list(m.reason.encode("utf-8", "surrogateescape")),
+                       "headers": [[list(k), list(v)] for k, v in m.raw_headers], "body": list(bytes(body)),
+                       "chunks": sorted(ends), "chunksKnown": hasattr(p, "_http_chunk_splits") or not hasattr(p, "_buffer"),
+                       "peof": bool(p.is_eof()), "perr": type(x).__name__ if x is not None else "",
+                       "perrHttp": isinstance(x, (HttpProcessingError, ClientError)) if x is not None else True,
+                       "close": bool(m.should_close), "upgrade": bool(m.upgrade), "chunked": bool(m.chunked)})
+        ev.update({"kind": "client", "msgs": ms,
+                   "exc": type(under).__name__ if under is not None else "",
+                   "excHttp": isinstance(under, HttpProcessingError) if under is not None else True,
+                   "excLimit": bool(limitish), "fedEof": False,
+                   "excAfterClose": under is not None and str(getattr(under, "message", "")).startswith("Data after"),
+                   "closed": bool(self.tr.closing), "loopExc": list(self.loop_exc),
+                   "taskExc": type(pe).__name__ if pe is not None else "",
+                   "upgraded": bool(getattr(self.proto, "upgraded", False))})
+        if not self.tr.closed:
+            self.tr.drop(None)
+            loop.run_until_idle()
+        loop.exc_contexts.clear()
+        return ev
+
+
+def client_key(ev: dict) -> tuple:
+    import json
+    return (json.dumps(ev["msgs"], sort_keys=True), ev["exc"], ev["excHttp"], ev["closed"], tuple(ev["loopExc"]),
+            ev["taskExc"], ev["upgraded"])
+
+
 # ---------------------------------------------------------------- connection level
 class ConnHarness:
     """A real aiohttp.web Application served by real RequestHandler objects on MemTransports
@@ -371,7 +484,8 @@ class ConnHarness:
 
         async def serve(request: Any) -> Any:
             rec = {"method": list(request.method.encode("utf-8", "surrogateescape")),
-                   "target": list(request.raw_path.encode("utf-8", "surrogateescape")),
+                   "target": list(str(getattr(getattr(request, "_message", None), "path", None) or request.raw_path)
+                                  .encode("utf-8", "surrogateescape")),
                    "body": [], "bstate": "pending"}
             harness.seen.append(rec)
             try:
@@ -499,6 +613,11 @@ class Group:
             self._add(("parse", k), lambda: event_from_key(k), cuts)
         return r
 
+    def client(self, cuts: Sequence[int]) -> dict:
+        ev = ClientRun(self.lim, until_eof=self.until_eof, with_body=self.with_body).run(self.data, cuts)
+        self._add(("client", client_key(ev)), lambda: ev, cuts)
+        return ev
+
     def conn(self, harness: ConnHarness, cuts: Sequence[int]) -> dict:
         ev = harness.run(self.data, cuts)
         self._add(("conn", conn_key(ev)), lambda: ev, cuts)
@@ -525,9 +644,11 @@ def judge_groups(ctx: Any, groups: List[Group], prop: str, label: str) -> Dict[s
     for g, t, v in zip(groups, traces, verdicts):
         info = v.info if isinstance(v.info, (list, tuple)) and len(v.info) == 2 else ((), ())
         devs, drift = info
+        notes = ctx.extra.setdefault("permitted_alternatives_and_notes", {})
         for d in drift or ():
             name = str(d[1])
-            ctx.drift(name.split(":")[0] if name.startswith(("RejectedSoft", "undecided")) else name)
+            name = name.split(":")[0] if name.startswith(("RejectedSoft", "undecided")) else name
+            notes[name] = notes.get(name, 0) + 1
         for d in devs or ():
             evi, name = int(d[0]), str(d[1])
             stats[name] = stats.get(name, 0) + 1
@@ -573,3 +694,130 @@ def replay_detail(ctx: Any, detail: dict) -> int:
     devs = [str(d[1]) for d in (v.info[0] if v.info else ())]
     print(f"replay: ok={v.ok} clause={v.clause!r} deviations={devs} events={v.pos}/{v.total}")
     return 0 if v.ok and not devs else 1
+
+
+# ---------------------------------------------------------------- corpora shared by the three drivers
+LIMIT_CONFIGS = {
+    "default": Limits(),
+    "small-equal": Limits(96, 96, 12),
+    "line>field": Limits(160, 80, 12),
+    "line<field": Limits(80, 160, 12),
+    "tiny-read-buffer": Limits(8190, 8190, 128, limit=4),
+    "tiny-buffer-small": Limits(96, 96, 12, limit=2),
+}
+
+
+def request_corpus(rng: Any, n_valid: int, per_class: Optional[int], n_bytes: int,
+                   classes: Optional[Sequence[str]] = None) -> Iterable[Tuple[str, str, bytes]]:
+    """(src, label, stream): grammar-valid pipelines, every mutation class at every applicable
+    position (per_class caps the positions sampled per class and stream), random byte edits."""
+    from .gen import http as G
+
+    for _k in range(n_valid):
+        msgs = G.gen_request_stream(rng)
+        parts = G.flatten(msgs)
+        data = G.render(parts)
+        yield "valid", "valid", data
+        for cls in (classes or G.REQUEST_CLASSES):
+            for label, b in G.mutate_class(parts, cls, rng, per_class=per_class):
+                yield "mutation", label, b
+        for label, b in G.random_byte_mutations(data, rng, n_bytes):
+            yield "bytes", label, b
+
+
+def response_corpus(rng: Any, n_valid: int, per_class: Optional[int], n_bytes: int
+                    ) -> Iterable[Tuple[str, str, bytes, dict]]:
+    from .gen import http as G
+
+    for _k in range(n_valid):
+        msgs, opts = G.gen_response_stream(rng)
+        parts = G.flatten(msgs)
+        data = G.render(parts)
+        yield "valid", "valid", data, opts
+        for cls in G.RESPONSE_CLASSES:
+            for label, b in G.mutate_class(parts, cls, rng, per_class=per_class):
+                yield "mutation", label, b, opts
+        for label, b in G.random_byte_mutations(data, rng, n_bytes):
+            yield "bytes", label, b, opts
+
+
+def run_model(ctx: Any, name: str, cfg: str, *, timeout: float = 600, exhaustive: bool = True) -> Any:
+    from .tlc import run_tlc
+
+    res = run_tlc("HttpFramingMC", cfg, workers=16, timeout=timeout, deadlock=False)
+    ok = ctx.expect_model_ok(name, res, exhaustive=exhaustive)
+    ctx.log(f"model {name}: {res.distinct} states, {res.generated} transitions, ok={ok}, {res.wall_s:.0f}s")
+    return res
+
+
+def mc_cfg_text(**over: Any) -> str:
+    """HttpFramingMC config text: the committed HttpFramingMC.cfg with constants overridden."""
+    import os
+    import re
+    from .tlc import SPEC_DIR
+
+    t = open(os.path.join(SPEC_DIR, "HttpFramingMC.cfg")).read()
+    for k, v in over.items():
+        t, n = re.subn(r"(?m)^  %s = .*$" % k, "  %s = %s" % (k, v), t)
+        if n != 1:
+            raise MachineryError(f"HttpFramingMC.cfg: constant {k} not found")
+    return t
+
+
+def write_mc_cfg(name: str, **over: Any) -> str:
+    import os
+    from .tlc import mktemp
+
+    p = os.path.join(mktemp("httpmc"), name + ".cfg")
+    with open(p, "w") as f:
+        f.write(mc_cfg_text(**over))
+    return p
+
+
+def behaviours_to_streams(behs: List[List[Any]]) -> List[Tuple[bytes, List[int]]]:
+    """TLC-simulated behaviours of HttpFramingMC -> (stream, cut positions at the lexeme boundaries)."""
+    out = []
+    seen = set()
+    for beh in behs:
+        data = bytearray()
+        cuts = []
+        for _label, st in beh[1:]:
+            last = st.get("last")
+            if not last:
+                continue
+            if data:
+                cuts.append(len(data))
+            data += bytes(last)
+        b = bytes(data)
+        if b and b not in seen:
+            seen.add(b)
+            out.append((b, cuts))
+    return out
+
+
+def selftest_common(ctx: Any, good: "Group", mutants: List[Tuple[str, Any]], model_mutants: List[Tuple[str, dict, str]]) -> int:
+    """(i) a good recorded group must pass and each corrupted copy must be rejected by the trace spec;
+    (ii) each spec-level mutant config must be caught by TLC with the expected invariant."""
+    import copy
+    from .tlc import run_tlc
+
+    base = good.trace()
+    traces = [base]
+    for _name, fn in mutants:
+        t = copy.deepcopy(base)
+        fn(t)
+        traces.append(t)
+    vs, _res = validate_batch(TRACE_MODULE, TRACE_CFG, traces, timeout=600)
+    ok = vs[0].ok and not (vs[0].info and vs[0].info[0])
+    print(f"selftest: good trace ok={vs[0].ok} clause={vs[0].clause!r} info={vs[0].info}")
+    for (name, _fn), v in zip(mutants, vs[1:]):
+        caught = (not v.ok) or bool(v.info and v.info[0])
+        print(f"selftest: corrupted trace [{name}] -> ok={v.ok} clause={v.clause!r} devs={v.info[0] if v.info else None}")
+        ok = ok and caught
+    for name, over, expect in model_mutants:
+        cfg = write_mc_cfg("mutant_" + name, **over)
+        res = run_tlc("HttpFramingMC", cfg, workers=16, timeout=600, deadlock=False)
+        print(f"selftest: model mutant [{name}] -> violated={res.violated} (expected {expect})")
+        ok = ok and res.violated == expect
+    print("selftest", "passed" if ok else "FAILED")
+    return 0 if ok else 2
